@@ -339,6 +339,38 @@ def main():
             cmp_stmt = norm_ws(m.group(1))
     w("Definition src_sig_compare : string := %s." % coq_str(cmp_stmt))
     w("Definition src_validate_signature_body : string := %s." % coq_str(norm_ws(body) if body else "NOT FOUND"))
+    # the same with log macro statements and string literals removed: the control skeleton
+    # (order of prevalidate / string-to-sign / key lookup / comparison), insensitive to rewording
+    skel = "NOT FOUND"
+    if body:
+        b = body
+        out, i = [], 0
+        while i < len(b):
+            m = re.compile(r"\b(trace|debug|info|warn|error)!\(").match(b, i)
+            if m:
+                depth, j, in_str = 1, m.end(), False
+                while j < len(b) and depth:
+                    ch = b[j]
+                    if in_str:
+                        if ch == "\\":
+                            j += 1
+                        elif ch == '"':
+                            in_str = False
+                    elif ch == '"':
+                        in_str = True
+                    elif ch == "(":
+                        depth += 1
+                    elif ch == ")":
+                        depth -= 1
+                    j += 1
+                while j < len(b) and b[j] in " \t\n;":
+                    j += 1
+                i = j
+                continue
+            out.append(b[i]); i += 1
+        skel = re.sub(r'"(?:[^"\\]|\\.)*"', '""', "".join(out))
+        skel = norm_ws(skel)
+    w("Definition src_validate_signature_skeleton : string := %s." % coq_str(skel))
     w("")
 
     # 9. log sites: macro level + identifiers mentioned in arguments after the format string
